@@ -192,6 +192,14 @@ def variant_walk(crate, f, pid, variant_path, macros=("write", "writeln"), value
         if k == "for" and has_site(e):
             # `for x in &slice[..n]` with n a constant selected by the variant: the body once per element, in order
             it = peel(e["iter"])
+            for _ in range(4):
+                # `let operands = &children[..n]; for x in operands` / `.iter()`
+                if it.get("k") == "mcall" and it["name"] in ("iter", "into_iter", "copied", "cloned") and not it["args"]:
+                    it = peel(it["recv"])
+                elif it.get("k") == "local" and it["id"] in LET_INITS:
+                    it = peel(LET_INITS[it["id"]])
+                else:
+                    break
             bnds = pat_bindings(e["pat"])
             if it.get("k") == "index" and peel(it["e"]).get("k") == "local" and canon(peel(it["e"])["id"]) in {canon(x) for x in slices} and len(bnds) == 1:
                 rng = peel(it["i"])
